@@ -177,7 +177,7 @@ func (e *Engine) Verify(fn *ssa.Function, c *Contract, prop string) *Tr {
 func (e *Engine) verifyPass(fn *ssa.Function, c *Contract, pre map[string]string, prop string) *Tr {
 	tr := &Tr{
 		prop: prop,
-		eng: e, top: fn, topShort: shortFuncName(fn), contract: c,
+		eng:  e, top: fn, topShort: shortFuncName(fn), contract: c,
 		declared: map[string]bool{}, sorts: map[string]string{}, obls: map[string]*Obl{},
 		init: &State{H: map[string]string{}}, used: map[string]bool{}, uninterp: map[string]bool{},
 	}
@@ -290,6 +290,28 @@ func (e *Engine) verifyPass(fn *ssa.Function, c *Contract, pre map[string]string
 				if err := tr.applyGhostSet(genv, gs, r.pp.St); err != nil {
 					tr.errorf("%s: ghostset: %v", fn.Name(), err)
 				}
+			}
+		}
+		// results declared `fresh`: the returned object is one this call allocated itself
+		if c.Kind == "func" {
+			_, rnames := sigNames(fn.Signature, false)
+			if c.HasNames && len(c.ResultNames) > 0 {
+				rnames = c.ResultNames
+			}
+			for i, rv := range r.results {
+				nm := fmt.Sprintf("result%d", i)
+				if i < len(rnames) && rnames[i] != "" {
+					nm = rnames[i]
+				}
+				if !(containsStr(c.Fresh, nm) || containsStr(c.Fresh, fmt.Sprintf("result%d", i)) || (len(r.results) == 1 && containsStr(c.Fresh, "result"))) || rv.K != VRef {
+					continue
+				}
+				f.cur = r.pp
+				alts := []string{sEq(rv.T, "0")}
+				for _, o := range tr.ownRefs {
+					alts = append(alts, sEq(rv.T, o))
+				}
+				f.addSite(prop, "fresh."+nm, "postcondition", "fresh "+nm+": the result is an object allocated by this call (or nil)", r.sig, sAnd(r.pp.R, sNot(sOr(alts...))))
 			}
 		}
 		// conformance to named specs
